@@ -16,7 +16,7 @@ checks = []
 for pid in props:
     if pid not in CHECKS or pid in NOT_APPLICABLE:
         continue
-    t = TEXT[pid]
+    t = TEXT.get(pid) or {"technique": "runtime monitor (see DESIGN.md)", "level_text": "generated workloads on the real code under an oracle; see DESIGN.md", "level_note": "see DESIGN.md"}
     checks.append({
         "property_id": pid,
         "quick_cmd": "./check %s quick" % pid,
